@@ -15,6 +15,7 @@
 package internal
 
 import (
+	"errors"
 	"iter"
 	"maps"
 	"net/http"
@@ -42,10 +43,9 @@ func (r RawTime) Value() (t time.Time, valid bool) {
 // RawDeltaSeconds is a string that represents a delta time in seconds,
 // as defined in §1.2.2 of RFC 9111.
 //
-// This implementation supports values up to the maximum range of int64
-// (9223372036854775807 seconds). Values exceeding 2147483648 (2^31) are
-// valid and will not be capped, as allowed by the RFC, which permits
-// using the greatest positive integer the implementation can represent.
+// Values exceeding 2147483648 (2^31) are valid; values too large to be
+// represented as a time.Duration are capped at the greatest representable
+// number of seconds, as allowed by the RFC.
 type RawDeltaSeconds string
 
 func (r RawDeltaSeconds) Value() (dur time.Duration, valid bool) {
@@ -54,11 +54,19 @@ func (r RawDeltaSeconds) Value() (dur time.Duration, valid bool) {
 	}
 	seconds, err := strconv.ParseInt(string(r), 10, 64)
 	if err != nil {
-		return
+		if !errors.Is(err, strconv.ErrRange) {
+			return
+		}
+		// Too large to represent: use the greatest representable value (RFC 9111 §1.2.2).
+		seconds = maxDeltaSeconds
 	}
-
+	// Saturate instead of overflowing time.Duration.
+	seconds = min(seconds, maxDeltaSeconds)
 	return time.Duration(seconds) * time.Second, true
 }
+
+// maxDeltaSeconds is the largest number of seconds that fits in a time.Duration.
+const maxDeltaSeconds = int64(1<<63-1) / int64(time.Second)
 
 // RawCSVSeq is a string that represents a sequence of comma-separated values.
 type RawCSVSeq string
